@@ -5461,6 +5461,10 @@ def dot_model(P, R):
                 g = out[1].attrs
                 edges = dict()
                 for (a, b), attrs_list in dict(g.get('edges', {})).items():
+                    # a graph that keeps one attribute mapping per pair
+                    # of nodes (instead of a list of them) shows one arc
+                    if hasattr(attrs_list, 'keys'):
+                        attrs_list = [attrs_list]
                     edges.setdefault(a, []).extend(
                         (b, dict(x)) for x in attrs_list)
                 succ = obj.attrs['_succ']
